@@ -903,7 +903,7 @@ def c05_thunks(st, case, inp, ams):
     def one_pass():
         with Recorder(case["rseed"] % (2 ** 31), "coin") as rec:
             # overwrite=False in one of the falsy forms (chosen by the case): the shared `space` tensor must stay untouched
-            st.sample(qc.int_value(qc.INT_FORMS[case["rseed"] % len(qc.INT_FORMS)] if "aseed" in case else "py", 1), initial_state=space, overwrite=qc.flag_value({"form": qc.FLAG_FORMS[case["rseed"] % len(qc.FLAG_FORMS)] if "gpuf" in case else "py",
+            st.sample(af.int_obj(qc.INT_FORMS[case["rseed"] % len(qc.INT_FORMS)] if "aseed" in case else "py", 1), initial_state=space, overwrite=qc.flag_value({"form": qc.FLAG_FORMS[case["rseed"] % len(qc.FLAG_FORMS)] if "gpuf" in case else "py",
                                                                         "value": False}))
         cl = canonical_calls(st, kind, n, h, a, rec.calls, len(V), V, fresh=False)
         cl = decomplement(st, kind, n, h, a, cl, len(V), V, fresh=False)
@@ -1071,6 +1071,12 @@ def gen_stats(ctx):
 
 
 def dispatch(ctx, case):
+    """one case; integer options handed over as objects outside every quantifier (np.uint8, 0-d arrays / tensors) and REFUSED by the
+    implementation are informational (argforms_a.tolerant, second audit X-1)"""
+    af.tolerant(ctx, _dispatch, ctx, case)
+
+
+def _dispatch(ctx, case):
     ctx.current_case = case
     if case["part"] == "cond":
         cond_case(ctx, case)
